@@ -55,8 +55,8 @@ func (c *Constraints) transform(v reflect.Value) {
 		switch v.Kind() {
 		case reflect.Interface:
 			// in case we passed a pointer to an interface which is a string
-			i := v.Elem().Interface()
-			if s, ok := i.(string); ok {
+			// (a nil interface holds nothing to transform)
+			if s, ok := v.Interface().(string); ok {
 				v.Set(reflect.ValueOf(strings.ToUpper(s)))
 			}
 
@@ -71,8 +71,8 @@ func (c *Constraints) transform(v reflect.Value) {
 		switch v.Kind() {
 		case reflect.Interface:
 			// in case we passed a pointer to an interface which is a string
-			i := v.Elem().Interface()
-			if s, ok := i.(string); ok {
+			// (a nil interface holds nothing to transform)
+			if s, ok := v.Interface().(string); ok {
 				v.Set(reflect.ValueOf(strings.ToLower(s)))
 			}
 
